@@ -270,7 +270,7 @@ impl<'a> Hist<'a> {
         });
     }
 
-    pub fn op_stop(&mut self, pair: Pair) {
+    pub fn op_stop(&mut self, pair: Pair) -> ActorId {
         let mgr = self.mgr();
         self.sim.log(format!("stop_managing ->{}", pair.1));
         let gc_now = self.sim.chance(1, 2);
@@ -280,7 +280,7 @@ impl<'a> Hist<'a> {
                 verif_shim::collect_removed(&mgr);
             }
             drop(mgr);
-        });
+        })
     }
 
     /// The concurrent map's deferred garbage collection runs: workers of removed pairs are released (cancelled).
